@@ -6,7 +6,7 @@ tier="${1:-quick}"
 out="${2:-/verif/build/seed_matrix.txt}"
 : > "$out"
 for d in seeded/*/; do
-  id=$(basename "$d"); prop=${id%%-*}
+  id=$(basename "$d"); prop=${id:0:3}
   if ! git -C /repo apply --check "/verif/$d/patch.diff" 2>/dev/null; then echo "$id $prop PATCH-DOES-NOT-APPLY" | tee -a "$out"; continue; fi
   git -C /repo apply "/verif/$d/patch.diff"
   ./check "$prop" --tier "$tier" > "/verif/build/seed-$id.log" 2>&1; rc=$?
